@@ -51,7 +51,18 @@ static void case_rotation(vh::Ctx & c, vh::Rng & r)
   double ang[3] = {pick_angle(r, M_PI), pick_angle(r, PL), pick_angle(r, M_PI)};
   c.cat("a_smart_rotation");
   c.distinct(vh::hash_doubles({1.0, ang[0], ang[1], ang[2]}), (ang[0] != 0) + (ang[1] != 0) + (ang[2] != 0) >= 2);
-  SmartRotation3D sr(ang[0], ang[1], ang[2]);
+  // half of the objects are re-initialised after holding another rotation (history), incl. one
+  // that shares some of the angles
+  SmartRotation3D sr;
+  if (r.coin()) {
+    double o[3] = {r.coin(0.3) ? ang[0] : pick_angle(r, M_PI), r.coin(0.3) ? ang[1] : pick_angle(r, PL), r.coin(0.3) ? ang[2] : pick_angle(r, M_PI)};
+    sr.init(o[0], o[1], o[2]);
+    if (r.coin()) {sr.init(Eigen::Vector3d(ang[0], ang[1], ang[2]));} else {sr.init(ang[0], ang[1], ang[2]);}
+    c.cat("a_reinitialised_object");
+  } else {
+    sr = SmartRotation3D(ang[0], ang[1], ang[2]);
+    c.cat("a_fresh_object");
+  }
   const Eigen::Matrix3d * rep[3] = {&sr.dRdAngleAroundXAxis(), &sr.dRdAngleAroundYAxis(), &sr.dRdAngleAroundZAxis()};
   // documented leftover terms (identity entries kept in the per-axis derivative matrices)
   Mat3L e0 = Mat3L::Zero(), e1 = Mat3L::Zero(), e2 = Mat3L::Zero();
